@@ -24,6 +24,9 @@ func registerIntrinsics(P *Program) {
 	registerIO(P)
 	registerKyber(P)
 	registerKyberDKG(P)
+	registerAtomic(P)
+	registerSyncMap(P)
+	registerNative(P)
 }
 
 func cstr(v Value) (string, bool) {
@@ -614,11 +617,39 @@ func registerStd(P *Program) {
 	r("strings.Trim", func(in *Interp, caller *frame, fn *ssa.Function, args []Value) Value {
 		return in.ts.Str(strings.Trim(mustStr(args[0], "strings.Trim"), mustStr(args[1], "strings.Trim")))
 	})
+	r("bytes.HasPrefix", func(in *Interp, caller *frame, fn *ssa.Function, args []Value) Value {
+		return in.ts.SPrefix(in.sliceStr(args[1].(SliceV)), in.sliceStr(args[0].(SliceV)))
+	})
+	r("bytes.HasSuffix", func(in *Interp, caller *frame, fn *ssa.Function, args []Value) Value {
+		return in.ts.SSuffix(in.sliceStr(args[1].(SliceV)), in.sliceStr(args[0].(SliceV)))
+	})
+	r("bytes.Contains", func(in *Interp, caller *frame, fn *ssa.Function, args []Value) Value {
+		return in.ts.SContains(in.sliceStr(args[0].(SliceV)), in.sliceStr(args[1].(SliceV)))
+	})
+	r("os.Getenv", func(in *Interp, caller *frame, fn *ssa.Function, args []Value) Value {
+		return in.ts.App("os.getenv", StrSort, args[0].(*Term)) // the environment is outside: some string per name
+	})
+	r("os.LookupEnv", func(in *Interp, caller *frame, fn *ssa.Function, args []Value) Value {
+		return Tuple{in.ts.App("os.getenv", StrSort, args[0].(*Term)), in.ts.App("os.hasenv", BoolSort, args[0].(*Term))}
+	})
 	r("strings.TrimSuffix", func(in *Interp, caller *frame, fn *ssa.Function, args []Value) Value {
-		return in.ts.Str(strings.TrimSuffix(mustStr(args[0], "strings.TrimSuffix"), mustStr(args[1], "strings.TrimSuffix")))
+		st, suf := args[0].(*Term), args[1].(*Term)
+		if st.IsConst() && suf.IsConst() {
+			return in.ts.Str(strings.TrimSuffix(st.s, suf.s))
+		}
+		ts := in.ts
+		return ts.Ite(ts.SSuffix(suf, st), ts.SSubstr(st, ts.Int(0), ts.ISub(ts.SLen(st), ts.SLen(suf))), st)
 	})
 	r("strings.TrimPrefix", func(in *Interp, caller *frame, fn *ssa.Function, args []Value) Value {
-		return in.ts.Str(strings.TrimPrefix(mustStr(args[0], "strings.TrimPrefix"), mustStr(args[1], "strings.TrimPrefix")))
+		st, pre := args[0].(*Term), args[1].(*Term)
+		if st.IsConst() && pre.IsConst() {
+			return in.ts.Str(strings.TrimPrefix(st.s, pre.s))
+		}
+		ts := in.ts
+		if st.op == OSConcat && len(st.args) > 0 && st.args[0] == pre {
+			return ts.SConcat(st.args[1:]...)
+		}
+		return ts.Ite(ts.SPrefix(pre, st), ts.SSubstr(st, ts.SLen(pre), ts.ISub(ts.SLen(st), ts.SLen(pre))), st)
 	})
 	r("strings.Index", func(in *Interp, caller *frame, fn *ssa.Function, args []Value) Value {
 		return in.ts.BV(64, uint64(int64(strings.Index(mustStr(args[0], "strings.Index"), mustStr(args[1], "strings.Index")))))
